@@ -273,7 +273,7 @@ func c14ReturnsStored(c *Ctx) {
 		}
 		c.R.Check(rule, cons, c.P.InstrPos(ret), same, "Scan returns "+shortVal(v)+" without having stored it as the current token: the parser, which reads the stored token, sees a different token than the one returned")
 	})
-	c.R.Floor(rule, 30)
+	c.R.Floor(rule, 15)
 }
 
 func c14Keywords(c *Ctx) {
@@ -365,7 +365,41 @@ func c14Keywords(c *Ctx) {
 		})
 	}
 	if !found {
-		c.R.Undecided(rule, "init-range", "-", "no init writes the keyword map")
+		// the map written as a literal: read its constant contents from the package initialiser
+		literalOK := false
+		why := "no init writes the keyword map"
+		if kf := c.fn("KeywordFromString"); kf != nil {
+			var load ssa.Value
+			instrs(kf, func(b *ssa.BasicBlock, i int, in ssa.Instruction) {
+				if lk, ok := in.(*ssa.Lookup); ok {
+					if u, ok := lk.X.(*ssa.UnOp); ok && u.X == ssa.Value(kwG) {
+						load = u
+					}
+				}
+			})
+			if load != nil {
+				fo := &Folder{P: c.P, MaxDepth: 1}
+				if tab2, ok := fo.constTable(nil, load); ok {
+					literalOK = true
+					for _, k := range c.AllKinds() {
+						if kw, ok := c.foldKindMethod("IsKeyword", k); ok && kw {
+							lv, hit := tab2["String:"+constant.MakeString(tab[k]).ExactString()]
+							if !hit || lv.K != lConst || !constant.Compare(lv.C, token.EQL, constant.MakeInt64(k)) {
+								literalOK = false
+								why = fmt.Sprintf("the keyword map literal does not map %q to %s", tab[k], c.SKName(k))
+							}
+						}
+					}
+					if len(tab2) != nkw {
+						literalOK = false
+						why = fmt.Sprintf("the keyword map literal has %d entries for %d keyword kinds", len(tab2), nkw)
+					}
+				} else {
+					why = "the keyword map is neither filled by an init loop over the token table nor a constant literal"
+				}
+			}
+		}
+		c.R.Check(rule, "init-range", "-", literalOK, why)
 	}
 	// lookup: KeywordFromString returns the table entry or SK_Unknown
 	if kf := c.fn("KeywordFromString"); kf != nil {
@@ -693,7 +727,7 @@ func c14FastPath(c *Ctx) {
 		}
 	})
 	c.R.Check(rule, "default-whitespace", c.P.Pos(scan.Pos()), okWS, "non-ASCII white space (IsWhiteSpace) must be skipped without producing a token")
-	c.R.Floor(rule, 8)
+	c.R.Floor(rule, 5)
 }
 
 func c14RangeTables(c *Ctx) {
@@ -868,5 +902,5 @@ func c14Flag(c *Ctx) {
 			c.R.Check(rule, cons, c.P.InstrPos(in), saved, "unexpected overwrite of the token flags (only OR-ing a bit, the per-token reset and the speculation restore are known)")
 		})
 	}
-	c.R.Floor(rule, 4)
+	c.R.Floor(rule, 3)
 }
